@@ -1,4 +1,5 @@
 import GrVerif.Proofs.Fsm
+import GrVerif.Proofs.Reverse
 set_option linter.unusedVariables false
 set_option linter.unusedSimpArgs false
 namespace GrVerif.Pass
@@ -45,24 +46,20 @@ theorem insert_respects_budget (c : Ctx) (h : c.maxSize ≤ 1) : ∃ c', opInser
   rw [if_pos this]
   exact ⟨_, rfl⟩
 
-/-- **growth bound of a pass range**: a range of passes that returns a segment did not let it outgrow 64 times the number
-of slots it started with -/
-theorem runRange_growth (passes : Array PassT) (c : Ctx) (lo hi fuel : Nat) (c' : Ctx)
-    (h : runRange passes c lo hi fuel = .ok (some c')) (hpos : 0 ≤ c.seg.numGlyphs) :
-    c'.seg.numGlyphs ≤ c.seg.numGlyphs * 64 ∨ c'.seg.numGlyphs = c.seg.numGlyphs := by
-  unfold runRange at h
-  simp only [] at h
-  generalize hc0 : (c.beginRange (c.seg.numGlyphs * 64)) = c0 at h
-  have hseg0 : c0.seg.numGlyphs = c.seg.numGlyphs := by rw [← hc0]; rfl
+/-- **growth bound of a run of passes**: a run that returns a segment did not let it outgrow the call's limit -/
+theorem runPasses_growth (passes : Array PassT) (limit : Int) (ar : Bool) (c0 : Ctx) (lo hi fuel : Nat) (c' : Ctx)
+    (h : runPasses passes limit ar c0 lo hi fuel = .ok (some c')) :
+    c'.seg.numGlyphs ≤ max limit 0 ∨ c'.seg.numGlyphs = c0.seg.numGlyphs := by
+  unfold runPasses at h
   have gen : ∀ (ks : List Nat) (acc : Except String (Option Ctx)),
-      (∀ a, acc = .ok (some a) → a.seg.numGlyphs ≤ c.seg.numGlyphs * 64 ∨ a.seg.numGlyphs = c.seg.numGlyphs) →
+      (∀ a, acc = .ok (some a) → a.seg.numGlyphs ≤ max limit 0 ∨ a.seg.numGlyphs = c0.seg.numGlyphs) →
       ∀ a, ks.foldl (fun (acc : Except String (Option Ctx)) k =>
         match acc with
         | .ok (some c1) =>
-          (match runPassDir (passes.getD (lo + k) default) c1 fuel with
-           | .ok (some c2) => if c2.seg.numGlyphs > 0 ∧ c2.seg.numGlyphs > c.seg.numGlyphs * 64 then .ok none else .ok (some c2)
+          (match runPassDir (passes.getD (lo + k) default) c1 fuel ar with
+           | .ok (some c2) => if c2.seg.numGlyphs > 0 ∧ c2.seg.numGlyphs > limit then .ok none else .ok (some c2)
            | o => o)
-        | o => o) acc = .ok (some a) → a.seg.numGlyphs ≤ c.seg.numGlyphs * 64 ∨ a.seg.numGlyphs = c.seg.numGlyphs := by
+        | o => o) acc = .ok (some a) → a.seg.numGlyphs ≤ max limit 0 ∨ a.seg.numGlyphs = c0.seg.numGlyphs := by
     intro ks
     induction ks with
     | nil => intro acc hacc a ha; exact hacc a ha
@@ -78,7 +75,7 @@ theorem runRange_growth (passes : Array PassT) (c : Ctx) (lo hi fuel : Nat) (c' 
         | none => cases hb
         | some c1 =>
           simp only [] at hb
-          generalize runPassDir (passes.getD (lo + k) default) c1 fuel = rp at hb
+          generalize runPassDir (passes.getD (lo + k) default) c1 fuel ar = rp at hb
           cases rp with
           | error e => cases hb
           | ok w =>
@@ -93,9 +90,50 @@ theorem runRange_growth (passes : Array PassT) (c : Ctx) (lo hi fuel : Nat) (c' 
                 subst hb
                 left
                 by_cases hz : c2.seg.numGlyphs > 0
-                · have : ¬ (c2.seg.numGlyphs > c.seg.numGlyphs * 64) := fun hh => hnot ⟨hz, hh⟩
+                · have : ¬ (c2.seg.numGlyphs > limit) := fun hh => hnot ⟨hz, hh⟩
                   omega
                 · omega
-  exact gen _ _ (fun a ha => by simp only [Except.ok.injEq, Option.some.injEq] at ha; rw [← ha]; right; exact hseg0) c' h
+  exact gen _ _ (fun a ha => by simp only [Except.ok.injEq, Option.some.injEq] at ha; rw [← ha]; right; rfl) c' h
+
+/-- **growth bound of a pass range**: a range of passes that returns a segment did not let it outgrow 64 times the number
+of slots it started with -/
+theorem runRange_growth (passes : Array PassT) (c : Ctx) (lo hi fuel : Nat) (c' : Ctx)
+    (h : runRange passes c lo hi fuel = .ok (some c')) (hpos : 0 ≤ c.seg.numGlyphs) :
+    c'.seg.numGlyphs ≤ c.seg.numGlyphs * 64 ∨ c'.seg.numGlyphs = c.seg.numGlyphs := by
+  unfold runRange at h
+  rcases runPasses_growth _ _ _ _ _ _ _ _ h with h1 | h1
+  · left; omega
+  · right; exact h1
+
+theorem bidiStep_numGlyphs (c : Ctx) : (bidiStep c).seg.numGlyphs = c.seg.numGlyphs := by
+  unfold bidiStep
+  split
+  · exact (reverseSlots_same c.seg _).numGlyphs
+  · rfl
+
+/-- **growth bound of a call of `Silf::runGraphite`**, with the bidi step or without -/
+theorem runPhase_growth (passes : Array PassT) (bPass : Nat) (c : Ctx) (lo hi : Nat) (dobidi : Bool) (fuel : Nat) (c' : Ctx)
+    (h : runPhase passes bPass c lo hi dobidi fuel = .ok (some c')) (hpos : 0 ≤ c.seg.numGlyphs) :
+    c'.seg.numGlyphs ≤ c.seg.numGlyphs * 64 ∨ c'.seg.numGlyphs = c.seg.numGlyphs := by
+  unfold runPhase at h
+  simp only [] at h
+  split at h
+  · split at h
+    · rename_i c1 h1
+      have g1 := runPasses_growth _ _ _ _ _ _ _ _ h1
+      have g2 := runPasses_growth _ _ _ _ _ _ _ _ h
+      rw [bidiStep_numGlyphs] at g2
+      have e0 : (c.beginRange (c.seg.numGlyphs * 64)).seg.numGlyphs = c.seg.numGlyphs := rfl
+      rw [e0] at g1
+      rcases g2 with g2 | g2
+      · left; omega
+      · rcases g1 with g1 | g1
+        · left; omega
+        · right; omega
+    · rename_i o hno
+      exact absurd h (fun hh => hno c' hh)
+  · rcases runPasses_growth _ _ _ _ _ _ _ _ h with h1 | h1
+    · left; omega
+    · right; exact h1
 
 end GrVerif.Pass
